@@ -287,7 +287,20 @@ class ReuseDep5(GlobalLicensing):
         path = Path(path)
         try:
             with path.open(encoding="utf-8") as fp:
-                return cls(str(path), Copyright(fp))
+                result = cls(str(path), Copyright(fp))
+            # python-debian compiles the patterns of a Files field, and this
+            # class parses the License field, only when a file is looked up.
+            # Find out now: a paragraph that does not work is an error of this
+            # file, not of every file that happens to match it.
+            for paragraph in result.dep5_copyright.all_files_paragraphs():
+                paragraph.files_pattern()
+                if paragraph.license is not None:
+                    _LICENSING.parse(paragraph.license.synopsis)
+            return result
+        except (ExpressionError, ParseError) as error:
+            raise GlobalLicensingParseValueError(
+                str(error), source=str(path)
+            ) from error
         except UnicodeDecodeError as error:
             raise GlobalLicensingParseError(
                 str(error), source=str(path)
